@@ -6,6 +6,7 @@ import (
 	"path/filepath"
 	"regexp"
 	"strings"
+	"testing/fstest"
 
 	"github.com/thought-machine/please/src/core"
 	"github.com/thought-machine/please/src/parse"
@@ -76,11 +77,6 @@ func (a *AspEval) Eval(p *Prog, route string) (vals string, err error) {
 		a.reset()
 	}
 	name := fmt.Sprintf("c%d", a.n)
-	pdir := filepath.Join(a.dir, name)
-	if err := os.MkdirAll(pdir, 0o755); err != nil {
-		return "", err
-	}
-	defer os.RemoveAll(pdir)
 	var src string
 	if route == "sub" {
 		defs := filepath.Join(a.dir, "plz-out/gen/defs", name+".build_defs")
@@ -97,13 +93,12 @@ func (a *AspEval) Eval(p *Prog, route string) (vals string, err error) {
 	} else {
 		src = Render(p, asp, "")
 	}
-	fn := filepath.Join(pdir, "BUILD")
-	if err := os.WriteFile(fn, []byte(src), 0o644); err != nil {
-		return "", err
-	}
+	// the BUILD file itself is served from memory (ParseFile takes an fs.FS); subincluded files must be on disk
+	fn := filepath.Join(name, "BUILD")
+	mem := fstest.MapFS{fn: &fstest.MapFile{Data: []byte(src), Mode: 0o644}}
 	pkg := core.NewPackage(name)
-	pkg.Filename = filepath.Join(name, "BUILD")
-	if err := a.state.Parser.ParseFile(pkg, nil, nil, core.ParseModeNormal, nil, fn); err != nil {
+	pkg.Filename = fn
+	if err := a.state.Parser.ParseFile(pkg, nil, nil, core.ParseModeNormal, mem, fn); err != nil {
 		return "", err
 	}
 	t := pkg.Target("v")
